@@ -29,6 +29,35 @@ sys.path.insert(0, os.path.join(REPO, "src"))
 os.environ.setdefault("PYRTCM_VERIF", "1")
 
 
+class Watchdog(BaseException):
+    """raised by the per-case watchdog (C04 termination clause); BaseException so that the
+    library's own `except Exception` cannot swallow it"""
+
+
+class watchdog:  # pylint: disable=invalid-name
+    """context manager: raise Watchdog in the main thread after `seconds` (generous: inputs take ms)"""
+
+    def __init__(self, seconds=20.0):
+        self.seconds = seconds
+
+    def _fire(self, signum, frame):
+        raise Watchdog()
+
+    def __enter__(self):
+        import signal
+
+        self._old = signal.signal(signal.SIGALRM, self._fire)
+        signal.setitimer(signal.ITIMER_REAL, self.seconds)
+        return self
+
+    def __exit__(self, *exc):
+        import signal
+
+        signal.setitimer(signal.ITIMER_REAL, 0)
+        signal.signal(signal.SIGALRM, self._old)
+        return False
+
+
 class MachineryFailure(Exception):
     """Something in the checking machinery itself failed (exit 2, never a VIOLATION)."""
 
